@@ -17,7 +17,7 @@ pub const SHIFTS: [f64; 12] = [-24.0, -12.0, -1.0, -0.5, -0.009, 0.0, 0.00001, 0
 
 pub fn run(tier: Tier) -> i32 {
     let rep = Report::new("C15", tier, "model_checking");
-    rep.set_rule("SCOPE: shifts {-24,-12,-1,-0.5,-0.009,0,1e-5,0.004,0.5,1,12,24} half tones (plus, per utterance, up to two shifts that carry one state's mean exactly onto the next state's) x voices (V0, P1..P3 with GV on; two-voice sets V0+Pk with weights (1.5,-.5), (.5,.5), (-.25,1.25); generated 2-/3-stream voices with GV off, also with the streams keyed MGC/F0/BAP) x (short utterances + corpus windows of 8 + windows around the lowest/highest-pitched voiced states + the whole corpus twice as one utterance of 2912 labels, thorough 11648) x (default + every single further deviation on the short set); trajectories through hook 1; oracle: same frame count and voiced pattern, lf0 shift = h ln2/12 (1e-9) on every voiced frame when no voiced state's mean reaches the 20 Hz..20 kHz clamp, spectrum and low-pass trajectories bit-identical, h=0 bit-identical to never calling the setter; a shift set before load_model equals setting it afterwards; distinct = (voice, other deviation, utterance, h); non-trivial = h != 0 and at least one voiced frame");
+    rep.set_rule("SCOPE: shifts {-24,-12,-1,-0.5,-0.009,0,1e-5,0.004,0.5,1,12,24} half tones (plus, per utterance, up to two shifts that carry one state's mean exactly onto the next state's) x voices (V0, P1..P3 with GV on; two-voice sets V0+Pk with weights (1.5,-.5), (.5,.5), (-.25,1.25); generated 2-/3-stream voices with GV off, also with the streams keyed MGC/F0/BAP) x (short utterances + corpus windows of 8 + windows around the lowest/highest-pitched voiced states + the whole corpus twice as one utterance of 2912 labels, thorough 11648) x (default + every single further deviation on the short set); trajectories through hook 1; oracle: same frame count and voiced pattern, lf0 shift = h ln2/12 (1e-9) on every voiced frame when no voiced state's mean reaches the 20 Hz..20 kHz clamp, spectrum and low-pass trajectories bit-identical, h=0 bit-identical to never calling the setter; a shift set before load_model equals setting it afterwards; a synthesis on another engine nested inside a pitch-shifted one (through AsRef<str> / ToLabels of the caller) leaves it bit-identical; distinct = (voice, other deviation, utterance, h); non-trivial = h != 0 and at least one voiced frame");
     rep.assume("shift lattice only; when some voiced state's shifted mean reaches the limit the expected trajectory is generated from the limited means through the public MlpgAdjust (itself checked by C05/C12)");
     let corpus = labels::corpus();
     let mut utts: Vec<Vec<String>> = vec![vec![corpus[41].clone()], corpus[40..43].to_vec()];
@@ -118,6 +118,8 @@ pub fn run(tier: Tier) -> i32 {
         jobs.push((gen3, utts.len() - 1, vec![]));
         jobs.push((0, utts.len() - 1, vec![Act::Speed(4.0)]));
     }
+    // a pitch-shifted synthesis with another engine's synthesis nested inside it (through the caller's own label types)
+    crate::props::c03::reentrant_part(&rep, "");
     rep.par_for(jobs.len(), 1, "C15 part 1", |j| {
         let (vi, ui, other) = &jobs[j];
         let v = &voices[*vi];
